@@ -348,8 +348,10 @@ impl Tokenizer {
                     if byte_level.use_regex {
                         Box::new(pre_tokenizers::Split::gpt2())
                     } else {
+                        // `(?s)` so that `.` also matches '\n': the whole
+                        // input must end up in a single piece.
                         let noop_split = pre_tokenizers::SplitOptions {
-                            pattern: r".*",
+                            pattern: r"(?s).*",
                             invert: true,
                             ..Default::default()
                         };
